@@ -200,6 +200,7 @@ def plan(tier, seed):
 
 
 def run_shard(spec, res):
+    from kverif.kharness import call_case
     dl = Deadline(spec['budget_s'])
     if spec['kind'] == 'random':
         for i in range(spec['first'], spec['first'] + spec['count']):
@@ -207,10 +208,12 @@ def run_shard(spec, res):
                 break
             rng = case_rng(spec['seed'], ID, i)
             res.evaluations += 1
+            # an exception raised inside the helpers on a supported configuration is a violation, not a harness problem
             if i % 4 == 3:
-                linear_case(rng, res)
+                call_case(res, linear_case, rng, res, case=dict(kind='linear', idx=i))
             else:
-                conv_case(random_geo(rng), rng, res)
+                geo = random_geo(rng)
+                call_case(res, conv_case, geo, rng, res, case=dict(kind='conv', idx=i, geo=list(geo)))
     else:
         for gi, (kh, kw, sh, sw, ph, pw) in enumerate(grid()):
             if gi % spec['parts'] != spec['part']:
@@ -223,16 +226,21 @@ def run_shard(spec, res):
                 H = rng.randint(max(kh - 2 * ph, 1), 9)
                 W = rng.randint(max(kw - 2 * pw, 1), 9)
                 res.evaluations += 1
-                conv_case((ci, co, kh, kw, sh, sw, ph, pw, H, W, rng.randint(1, 4), rep % 2 == 0), rng, res)
+                geo = (ci, co, kh, kw, sh, sw, ph, pw, H, W, rng.randint(1, 4), rep % 2 == 0)
+                call_case(res, conv_case, geo, rng, res, case=dict(kind='conv', grid=gi, rep=rep, geo=list(geo)))
         res.count('grid_points')
 
 
 def replay(case, res):
     import random
+    from kverif.kharness import call_case
     rng = random.Random(0)
-    if case.get('kind') == 'conv':
+    if case.get('kind') == 'conv' and 'geo' in case:
+        for s in range(5):
+            call_case(res, conv_case, tuple(case['geo']), random.Random(s), res, case=case)
+    elif case.get('kind') == 'conv':
         for s in range(5):
             conv_case((case['ci'], case['co'], *case['kernel'], *case['stride'], *case['padding'], case['H'], case['W'], case['B'], case['bias']), random.Random(s), res)
     else:
         for s in range(50):
-            linear_case(random.Random(s), res)
+            call_case(res, linear_case, random.Random(s), res, case=case)
